@@ -17,7 +17,12 @@ import (
 )
 
 // SpecRoot is where the TLA+ modules live.
-var SpecRoot = "/verif/spec"
+var SpecRoot = func() string {
+	if r := os.Getenv("VERIF_ROOT"); r != "" {
+		return r + "/spec"
+	}
+	return "/verif/spec"
+}()
 
 type Options struct {
 	Module   string            // module name (without .tla)
